@@ -20,7 +20,7 @@ CLAIMED = {
          "DESIGN.md section 4, C03"),
  "C04": ("exploration", "generated-input totality testing in isolated worker processes with a watchdog (proptest-driven; fork probes for inputs known to be able to kill the process)",
          "Four generated families: arbitrary card trees through the JSON and YAML loaders into the compiler (and, when they compile, into the VM), structured compile stress around every documented limit (globals, locals, upvalues, functions, card nesting, submodule depth, super chains), run-time stress templates (recursion, wide expressions, numeric boundaries, wrong operand types, cyclic tables, reserved-hash keys, tiny budgets, odd stdlib inputs) and random well-scoped programs under random budget/value-stack/call-stack sizes. A case passes when compile and run return a value; panics are caught per case, signals and hangs by the parent process, which re-runs the case twice in isolation before reporting. Search, not proof.",
-         "Memory limits are not varied (collections are C02/C05). Which of Ok/Err is returned is asserted only where a template forces it (value-stack exhaustion, calling a non-function).",
+         "Memory limits are not varied (collections are C02/C05). Which of Ok/Err is returned is asserted only where a template forces it (value-stack exhaustion, calling a non-function). Added after blind seeded changes: tables holding keys that can not be found again (NaN, a table changed after use as a key) under every table operation and std function; 236-257 locals followed by a construct needing several hidden local slots; loops nested up to 69 deep.",
          "DESIGN.md section 4, C04"),
  "C05": ("exploration", "shadow-ledger invariant checking over generated programs, garbage loops and host-API allocator histories (proptest-driven), with an independent reachability walker",
          "Every allocator event (request, alloc, dealloc, refusal - hook) of generated table-heavy programs under limits 4 KiB..1 MiB, of bounded-live-data garbage loops run for n and 10n iterations, and of host-API histories (strings, tables, guards, stack, gc, clear, set_memory_limit) is replayed into a shadow ledger: counter == outstanding charges (+ the request being served), never above the limit, refusals change nothing; after a final collection the live object list must equal the set reachable from stack/globals/frames/open upvalues/guards computed by an independent walker; after clear the counter is 0 and nothing is outstanding; OutOfMemory is accepted only if reachable bytes + request exceed half the limit; garbage loops must not fail for any n.",
@@ -40,7 +40,7 @@ CLAIMED = {
          "DESIGN.md section 4, C15"),
  "C16": ("exploration", "proptest-driven model-based testing of edit histories against a plain tree-edit model with an independent child-numbering table",
          "Arbitrary modules (every card kind in every slot, unique card ids) and histories of get/insert/remove/replace/swap/walk plus the law pairs insert;remove, replace;replace-back, swap;swap, with indices valid w.r.t. the evolving model or invalid in a specific way; Ok/Err, the resulting id-tree, serde_json text after failed edits and child count/enumeration/lookup agreement are checked after every op.",
-         "Trusts the tree model and its list-vs-fixed-slot table (taken from the doc comment of insert_child); swap(a,a) is taken to be the identity.",
+         "Trusts the tree model and its list-vs-fixed-slot table (taken from the doc comment of insert_child); swap(a,a) is taken to be the identity. A third of the modules have submodules with their own cards, which the parent module's walk and edit API must neither report nor touch.",
          "DESIGN.md section 4, C16"),
  "C17": ("exploration", "history-based differential testing: a reused VM against newly built VMs, repeated histories, and repetition sweeps (proptest-driven)",
          "Histories of 2-40 steps (run with a budget, clear, set_memory_limit) over one VM with programs ending in every way (Ok, Timeout, OutOfMemory, Stackoverflow, CallStackOverflow, native error, error inside a native->script callback, open upvalues, garbage beyond the collection threshold): every run directly after clear / set_memory_limit is replayed on a newly built VM and must match in observation, dispatched instructions, allocated bytes, next collection threshold, number of collections and value-stack height; each history is executed twice and must give identical observation sequences; repetition sweeps run one program 3..300 times with and (for stack-balanced successful programs) without clear and require every run to equal the first.",
@@ -56,7 +56,7 @@ CLAIMED = {
          "DESIGN.md section 4, C19"),
  "C08": ("exploration", "differential testing of generated module trees against an independent name-resolution model plus the reference interpreter (proptest-driven)",
          "Module trees (depth <=3) in which the same function names occur in many modules, with relative function imports, module imports, super. chains and call sites in every spelling (absolute, bare, relative dotted, function import, module-prefix import; static and through function values). An independent resolver implements the stated lookup order; the reference interpreter runs with the model's targets and the VM with the spelled names, and the host logs (body tags, parameters in declaration order, caller sentinels, return values) must agree. Enumerated error classes (duplicate function in a module, duplicate module, root module std, import without dot, ambiguous imports, unresolvable call, invalid module name) are planted in a share of the trees and must be compile errors.",
-         "Call graphs are acyclic; unused imports of missing targets and malformed-but-dotted imports are not generated because the statement does not fix their status; 32-bit label collisions between cards and functions are not attacked.",
+         "Call graphs are acyclic; unused imports of missing targets and malformed-but-dotted imports are not generated because the statement does not fix their status; 32-bit label collisions between cards and functions are not attacked. The name pools contain boundary-shift names (a.b.f / ab.f / a.bf), a module name ending in the keyword super, and planted unresolvable calls are mostly near misses built from the names in use.",
          "DESIGN.md section 4, C08"),
  "C09": ("exploration", "differential testing of generated std-library calls against direct specifications of the contracts inside the reference interpreter (proptest-driven)",
          "Programs with 1-3 calls of every std function on generated tables (sizes 0/1/2 over-represented, ties, int/real mixes, nil, string, nested-table values, arbitrary keys) or non-table inputs, with generated callbacks of arity 1-3 (closures and script functions; pure, allocating, capturing, counting, nested library call), spelled std.X or imported. The contracts of the property are written as specifications (call_std in refsem.rs); results and the inputs after the call are logged and must equal the specification's.",
